@@ -1,4 +1,257 @@
+(* C27 — proofs.  The read / seek / tell fragment of SFTPFile refines the reference file
+   semantics (Lib/FileSpec.v): the server handle is a prefix reader in the sense of the generic
+   section of C42_proofs, so the C42 loop lemmas give the value of every read call; seek and
+   tell are handled directly.  Plus: open agrees with the reference for every mode, and the
+   witnesses of the known divergences (_refuted). *)
 From PV Require Import Bytes C42 C42_proofs FileSpec C27.
+From Coq Require Import Lia ZifyBool.
 Open Scope Z_scope.
-Lemma c27_placeholder : MAX_REQUEST_SIZE = 32768.
-Proof. reflexivity. Qed.
+
+Lemma skipn_skipn' {A} (x y : nat) (l : list A) : skipn x (skipn y l) = skipn (y + x) l.
+Proof.
+  revert l. induction y as [|y IH]; intros l; cbn; [reflexivity|].
+  destruct l; [now rewrite skipn_nil|apply IH].
+Qed.
+Lemma drop_drop a b l : 0 <= a -> 0 <= b -> drop a (drop b l) = drop (b + a) l.
+Proof. intros. rewrite !drop_skipn, skipn_skipn'. f_equal. lia. Qed.
+
+Lemma take_drop_len k l : 0 <= k -> l = take k l ++ drop (zlen (take k l)) l.
+Proof.
+  intros Hk. rewrite zlen_take by lia. destruct (Z_le_gt_dec k (zlen l)).
+  - rewrite Z.min_l by lia. symmetry. apply take_drop.
+  - rewrite Z.min_r by lia. rewrite take_all, drop_all by lia. now rewrite app_nil_r.
+Qed.
+
+(* ---- the server handle as a prefix reader ---- *)
+Definition srv_ok (s : srv) : Prop :=
+  match s_tell s with Some t => t = s_fpos s | None => True end.
+Definition sRem (s : srv) (rp : Z) : list Z := drop rp (s_content s).
+Definition sInv (c : list Z) (s : srv) (rp : Z) : Prop := s_content s = c /\ 0 <= rp /\ srv_ok s.
+
+Lemma s_read_spec c : forall s rp n d s',
+  sInv c s rp -> 0 < n -> s_read s rp n = (d, s') ->
+  sRem s rp = d ++ sRem s' (rp + zlen d) /\ zlen d <= n /\ (d = [] -> sRem s rp = []) /\
+  sInv c s' (rp + zlen d).
+Proof.
+  intros s rp n d s' (Hc & Hrp & Hok) Hn E. unfold s_read in E.
+  set (k := Z.min n MAX_REQUEST_SIZE) in *.
+  assert (Hk : 1 <= k <= n) by (unfold k, MAX_REQUEST_SIZE; lia).
+  set (t := match s_tell s with Some t => t | None => s_fpos s end) in *.
+  assert (Ht : t = s_fpos s) by (unfold t, srv_ok in *; destruct (s_tell s); auto).
+  assert (Hfp : (if rp =? t then s_fpos s else rp) = rp) by (destruct (rp =? t) eqn:Eq; lia).
+  rewrite Hfp in E. injection E as <- <-. unfold sRem, sInv, srv_ok. cbn.
+  set (X := drop rp (s_content s)).
+  split.
+  { rewrite <- drop_drop by (try lia; apply zlen_nonneg). fold X. apply take_drop_len. lia. }
+  split; [rewrite zlen_take by lia; lia|].
+  split.
+  { intros H. apply (f_equal zlen) in H. rewrite zlen_take, zlen_nil in H by lia.
+    apply zlen_zero. pose proof (zlen_nonneg X). lia. }
+  split; [exact Hc|]. split; [pose proof (zlen_nonneg (take k X)); lia|reflexivity].
+Qed.
+
+(* ---- invariant tying an SFTPFile to the reference file ---- *)
+Definition Lf (f : sfile) : list Z := L srv sRem f.
+
+Record tied (c : list Z) (f : sfile) (r : rfile) : Prop := mk_tied {
+  t_content : s_content (strm f) = c;
+  t_rcontent : r_content r = c;
+  t_pos : pos f = r_pos r;
+  t_pos0 : 0 <= pos f;
+  t_real : realpos f = pos f + zlen (rbuf f);
+  t_L : Lf f = drop (pos f) c;
+  t_wbuf : wbuf f = [];
+  t_closed : closed f = false;
+  t_read : fl_read f = true;
+  t_rrd : r_rd r = true;
+  t_bufsize : 0 < bufsize f;
+  t_srv : srv_ok (strm f) }.
+
+Lemma tied_inv c f r : tied c f r -> inv srv (sInv c) f.
+Proof.
+  intros T. unfold inv, sInv. split; [apply T|]. split; [|apply T].
+  rewrite (t_real _ _ _ T). pose proof (t_pos0 _ _ _ T). pose proof (zlen_nonneg (rbuf f)). lia.
+Qed.
+Lemma tied_fuel c f r fuel : tied c f r -> (length c < fuel)%nat -> fuel_ok srv sRem fuel f.
+Proof.
+  intros T Hf. unfold fuel_ok, RemOf, sRem. rewrite (t_content _ _ _ T), drop_skipn, skipn_length. lia.
+Qed.
+Lemma tied_rest c f r : tied c f r -> rest r = Lf f.
+Proof. intros T. unfold rest. now rewrite (t_L _ _ _ T), (t_rcontent _ _ _ T), (t_pos _ _ _ T). Qed.
+
+(* a successful read call keeps the tie, the reference position advancing by the result *)
+Lemma post_tied c f f' r res :
+  tied c f r -> post srv sRem (sInv c) f f' res ->
+  tied c f' (set_pos r (r_pos r + zlen res)).
+Proof.
+  intros T (P1 & (I1 & I2 & I3) & Cfg & P4 & P5).
+  destruct Cfg as (C1 & C2 & C3 & C4 & C5 & C6 & C7 & C8 & C9).
+  fold (Lf f) in P1. fold (Lf f') in P1.
+  assert (HL : Lf f' = drop (pos f') c).
+  { destruct (app_take_inv _ _ _ P1) as [_ H2]. rewrite H2, (t_L _ _ _ T), P4.
+    apply drop_drop; [apply zlen_nonneg|apply T]. }
+  assert (Hreal : realpos f' = pos f' + zlen (rbuf f')).
+  { apply (f_equal zlen) in P1. unfold Lf, L in P1. rewrite !zlen_app in P1.
+    rewrite (t_real _ _ _ T) in P5. lia. }
+  apply mk_tied; cbn;
+    [ exact I1 | apply T | rewrite P4, (t_pos _ _ _ T); reflexivity
+    | rewrite P4; pose proof (t_pos0 _ _ _ T); pose proof (zlen_nonneg res); lia
+    | exact Hreal | exact HL | rewrite C1; apply T | rewrite C9; apply T | rewrite C3; apply T
+    | apply T | rewrite C8; apply T | exact I3 ].
+Qed.
+
+Lemma tied_read_exn c f r : tied c f r -> closed f = false /\ fl_read f = true.
+Proof. intros T. split; apply T. Qed.
+
+Lemma generic_bufsize {S} (hr hw ha hp : bool) bufsz size0 (s : S) :
+  0 < bufsize (set_mode hr hw ha hp bufsz size0 s).
+Proof. unfold set_mode, DEFAULT_BUFSIZE. cbn. destruct (bufsz <? 0) eqn:E; destruct (1 <? _) eqn:E2; lia. Qed.
+
+(* one call of the fragment *)
+Lemma step_refines c fuel f r o :
+  tied c f r -> (length c < fuel)%nat -> read_only_op o = true ->
+  exists x f' r', sf_step fuel f o = (x, f') /\ ref_step r o = (x, r') /\ tied c f' r'.
+Proof.
+  intros T Hf Ho. pose proof (tied_inv _ _ _ T) as Hi. pose proof (tied_fuel _ _ _ _ T Hf) as Hfo.
+  destruct (tied_read_exn _ _ _ T) as [Hc Hr].
+  destruct o as [n|size| |d|off whence| |n|]; try discriminate Ho; cbn [sf_step ref_step].
+  - (* read *)
+    rewrite (t_rrd _ _ _ T). cbn [negb]. rewrite (tied_rest _ _ _ T).
+    destruct n as [n|]; [destruct (Z_lt_ge_dec n 0) as [Hn|Hn]|].
+    + destruct (read_all_spec srv s_read sRem (sInv c) (s_read_spec c) fuel f (Some n) Hi Hfo Hc Hr Hn)
+        as (f' & E & P & _).
+      rewrite E. replace (n <? 0) with true by lia. fold (Lf f). eexists _, f', _.
+      split; [reflexivity|]. split; [reflexivity|]. eapply post_tied; eassumption.
+    + destruct (read_n_spec srv s_read sRem (sInv c) (s_read_spec c) fuel f n Hi Hfo (t_bufsize _ _ _ T) Hc Hr ltac:(lia))
+        as (f' & E & P).
+      rewrite E. replace (n <? 0) with false by lia. fold (Lf f). eexists _, f', _.
+      split; [reflexivity|]. split; [reflexivity|]. eapply post_tied; eassumption.
+    + destruct (read_all_spec srv s_read sRem (sInv c) (s_read_spec c) fuel f None Hi Hfo Hc Hr I)
+        as (f' & E & P & _).
+      rewrite E. fold (Lf f). eexists _, f', _.
+      split; [reflexivity|]. split; [reflexivity|]. eapply post_tied; eassumption.
+  - (* readline *)
+    rewrite (t_rrd _ _ _ T). cbn [negb]. rewrite (tied_rest _ _ _ T).
+    destruct (readline_spec srv s_read sRem (sInv c) (s_read_spec c) fuel f size Hi Hfo (t_bufsize _ _ _ T) Hc Hr)
+      as (f' & E & P).
+    rewrite E. fold (Lf f). eexists _, f', _.
+    split; [reflexivity|]. split; [reflexivity|]. eapply post_tied; eassumption.
+  - (* seek *)
+    unfold sf_seek, bf_flush. rewrite (t_wbuf _ _ _ T).
+    assert (Hw : write_all s_write fuel f [] = Some f) by (destruct fuel; reflexivity).
+    rewrite Hw. cbn [pos strm upd_wr].
+    rewrite (t_content _ _ _ T), (t_rcontent _ _ _ T), <- (t_pos _ _ _ T).
+    set (p := if whence =? 0 then off else if whence =? 1 then pos f + off else zlen c + off).
+    destruct (p <? 0) eqn:Ep.
+    + eexists _, _, _. split; [reflexivity|]. split; [reflexivity|].
+      destruct T. unfold Lf, L, RemOf in *. constructor; unfold Lf, L, RemOf; cbn; try assumption; try reflexivity.
+    + eexists _, _, _. split; [reflexivity|]. split; [reflexivity|].
+      destruct T. unfold Lf, L, RemOf, sRem in *.
+      constructor; unfold Lf, L, RemOf, sRem; cbn; try assumption; try lia; try reflexivity.
+      rewrite t_content0. reflexivity.
+  - (* tell *)
+    rewrite (t_pos _ _ _ T). eexists _, _, _. split; [reflexivity|]. split; [reflexivity|]. exact T.
+Qed.
+
+Lemma run_refines c fuel : forall ops f r,
+  tied c f r -> (length c < fuel)%nat -> forallb read_only_op ops = true ->
+  exists f' r', fst (sf_run fuel f ops) = fst (ref_run r ops) /\
+                f' = snd (sf_run fuel f ops) /\ r' = snd (ref_run r ops) /\ tied c f' r'.
+Proof.
+  induction ops as [|o ops IH]; intros f r T Hf Ho; cbn [sf_run ref_run].
+  - exists f, r. split; [reflexivity|]. split; [reflexivity|]. split; [reflexivity|exact T].
+  - cbn [forallb] in Ho. apply andb_true_iff in Ho as [Ho1 Ho2].
+    destruct (step_refines c fuel f r o T Hf Ho1) as (x & f1 & r1 & E1 & E2 & T1).
+    rewrite E1, E2. destruct (IH f1 r1 T1 Hf Ho2) as (f' & r' & H1 & H2 & H3 & T').
+    destruct (sf_run fuel f1 ops) as [xs f2]. destruct (ref_run r1 ops) as [ys r2]. cbn in *.
+    exists f', r'. subst. split; [now f_equal|]. split; [reflexivity|]. split; [reflexivity|exact T'].
+Qed.
+
+Lemma open_tied m bufsz file f0 r0 :
+  sf_open m bufsz file = Some f0 -> ref_open m file = Some r0 -> m_read m = true ->
+  tied (r_content r0) f0 r0.
+Proof.
+  intros Hs Hr Hm. unfold sf_open, ref_open in *.
+  assert (Hgen : forall c', tied c'
+      (set_mode (match m with Mr | Mrp => true | _ => false end)
+                (match m with Mw | Mwp | Mx => true | _ => false end) (m_append m)
+                (match m with Mrp | Mwp | Map => true | _ => false end) bufsz (zlen c')
+                (mksrv c' (if m_append m then zlen c' else 0) None (m_append m)))
+      (mkrf c' (if m_append m then zlen c' else 0) (m_read m) (m_write m) (m_append m))).
+  { intros c'. constructor; cbn; try reflexivity.
+    - destruct (m_append m); [apply zlen_nonneg|lia].
+    - lia.
+    - unfold Lf, L, RemOf, sRem. cbn. reflexivity.
+    - destruct m; try discriminate Hm; reflexivity.
+    - exact Hm.
+    - apply (generic_bufsize _ _ _ _ bufsz (zlen c')
+               (mksrv c' (if m_append m then zlen c' else 0) None (m_append m))).
+    - exact I. }
+  destruct file as [c0|].
+  - destruct (m_excl m); [discriminate|]. injection Hs as <-. injection Hr as <-. cbn [r_content]. apply Hgen.
+  - destruct (m_must_exist m); [discriminate|]. injection Hs as <-. injection Hr as <-. cbn [r_content]. apply Hgen.
+Qed.
+
+(* the partial refinement theorem *)
+Lemma refines_partial :
+  forall (m : fmode) (bufsz : Z) (file : option (list Z)) (ops : list fop) (fuel : nat)
+         (f0 : sfile) (r0 : rfile),
+    sf_open m bufsz file = Some f0 -> ref_open m file = Some r0 ->
+    m_read m = true -> forallb read_only_op ops = true ->
+    (length (r_content r0) < fuel)%nat ->
+    fst (sf_run fuel f0 ops) = fst (ref_run r0 ops) /\
+    final_content fuel (snd (sf_run fuel f0 ops)) = r_content (snd (ref_run r0 ops)).
+Proof.
+  intros m bufsz file ops fuel f0 r0 Hs Hr Hm Ho Hf.
+  pose proof (open_tied _ _ _ _ _ Hs Hr Hm) as T0.
+  destruct (run_refines _ fuel ops f0 r0 T0 Hf Ho) as (f' & r' & H1 & -> & -> & T').
+  split; [exact H1|].
+  unfold final_content, bf_close, bf_flush. rewrite (t_wbuf _ _ _ T').
+  assert (Hw : forall g : sfile, write_all s_write fuel g [] = Some g) by (intros; destruct fuel; reflexivity).
+  rewrite Hw. cbn. rewrite (t_content _ _ _ T'), (t_rcontent _ _ _ T'). reflexivity.
+Qed.
+
+(* open succeeds on the SFTP side exactly when it succeeds on the reference, for every mode *)
+Lemma open_agrees m bufsz file :
+  (sf_open m bufsz file = None <-> ref_open m file = None).
+Proof.
+  unfold sf_open, ref_open. destruct file as [c|].
+  - destruct (m_excl m); split; intros H; try reflexivity; discriminate.
+  - destruct (m_must_exist m); split; intros H; try reflexivity; discriminate.
+Qed.
+
+(* ---- witnesses of the divergences recorded as known findings ---- *)
+Definition diverges (m : fmode) (bufsz : Z) (init : list Z) (ops : list fop) : Prop :=
+  exists f0 r0, sf_open m bufsz (Some init) = Some f0 /\ ref_open m (Some init) = Some r0 /\
+    (fst (sf_run 100 f0 ops) <> fst (ref_run r0 ops) \/
+     final_content 100 (snd (sf_run 100 f0 ops)) <> r_content (snd (ref_run r0 ops))).
+
+Ltac witness := unfold diverges; eexists _, _; split; [reflexivity|]; split; [reflexivity|];
+                vm_compute; first [left; discriminate | right; discriminate].
+
+(* r+ with bufsize 8: write(b"a\naa"); readline() *)
+Lemma refuted_read_pending :
+  diverges Mrp 8 [10;10;121;10;121] [FWrite [97;10;97;97]; FReadline None].
+Proof. witness. Qed.
+(* w with bufsize 65536: write(b"abc"); tell() *)
+Lemma refuted_tell_pending : diverges Mw 65536 [] [FWrite [97;98;99]; FTell].
+Proof. witness. Qed.
+(* r+ unbuffered: readline(); write(b"X") lands at EOF *)
+Lemma refuted_write_after_readline :
+  diverges Mrp 0 [97;10;98;10;99] [FReadline None; FWrite [88]].
+Proof. witness. Qed.
+(* w with bufsize 64: write(b"ab"); truncate(0) -- the later flush re-extends the file *)
+Lemma refuted_truncate_pending : diverges Mw 64 [] [FWrite [97;98]; FTruncate 0].
+Proof. witness. Qed.
+(* r: truncate(1) succeeds *)
+Lemma refuted_truncate_readonly : diverges Mr 0 [97;98;99] [FTruncate 1].
+Proof. witness. Qed.
+(* a: write(b"ab"); truncate(0); write(b"c"); tell() *)
+Lemma refuted_stale_after_truncate :
+  diverges Ma 0 [] [FWrite [97;98]; FTruncate 0; FWrite [99]; FTell].
+Proof. witness. Qed.
+(* bare "x": write raises on paramiko, succeeds on the reference *)
+Lemma refuted_bare_x :
+  exists f0 r0, sf_open Mxbare 0 None = Some f0 /\ ref_open Mxbare None = Some r0 /\
+    fst (sf_run 100 f0 [FWrite [97]]) <> fst (ref_run r0 [FWrite [97]]).
+Proof. eexists _, _. split; [reflexivity|]. split; [reflexivity|]. vm_compute. discriminate. Qed.
